@@ -111,7 +111,7 @@ def absmax_operand(fi):
             inner = p.args[0] if _is_abs(p) else _neg(p)
             if inner is None:
                 continue
-            mn, mx = _ext(inner), _ext(q)
+            mn, mx = _ext(inner), _ext(q.args[0] if (_is_abs(q) and _is_abs(p)) else q)       # max(|min|, |max|) is the same number
             if mn and mx and mn[0] == "min" and mx[0] == "max" and mn[1:3] == mx[1:3]:
                 x = mn[3]
     # B
